@@ -270,6 +270,10 @@ bool
 typehasint(struct type *t, unsigned long long i, bool sign)
 {
 	assert(t->prop & PROPINT);
+	if (t->kind == TYPEENUM && t->base)
+		t = t->base;
+	if (t->kind == TYPEBOOL)
+		return i <= 1;
 	if (sign && i >= -1ull << 63)
 		return t->u.basic.issigned && i >= -1ull << (t->size << 3) - 1;
 	return i <= 0xffffffffffffffffull >> (8 - t->size << 3) + t->u.basic.issigned;
